@@ -61,6 +61,7 @@ class Sim:
         self.stats: dict = {}
         self.probes: dict = {}
         self.cases: set = set()
+        self.known_hits: dict = {}
         self.word: list = []
         self.step_no = -1
         self.emissions: list = []  # (step, payload, structure_ok)
@@ -125,6 +126,13 @@ class Sim:
             property=prop, oracle=oracle, msg=str(msg)[:600], step=self.step_no,
             op=(op or {}).get("op") if isinstance(op, dict) else op, tags=sorted(tags), exc=exc,
         )
+        from . import findings
+
+        k = findings.match_known(v)
+        if k is not None:
+            # a listed finding: counted, reported as KNOWN-FINDING, never ends the run
+            self.known_hits[k["id"]] = self.known_hits.get(k["id"], 0) + 1
+            return None
         self.violations.append(v)
         return v
 
